@@ -435,6 +435,32 @@ pub fn check_input(space: &Space, e: &Entry, input: &Input, fails: &mut BTreeMap
             break;
         }
     }
+    // a message that was read successfully is not affected by what follows it: the same octets with further
+    // octets behind them, and the declared length extended over those, give the same value at the same position.
+    // Otherwise the success depended on where the input ended: the reader went on beyond the declared length
+    // (a length it had announced itself was not there) and still reported success
+    if o.res.starts_with("Ok:") && o.pos.map_or(false, |p| p <= n) {
+        for (fill, name) in [(0x00u8, "followed-by-00-00-00"), (0xFFu8, "followed-by-ff-ff-ff")] {
+            let mut ext = pack(&input.bits);
+            // the declared length ends inside the last octet: the bits behind it belong to the continuation
+            if n % 8 != 0 {
+                let last = ext.len() - 1;
+                if fill == 0xFF {
+                    ext[last] |= 0xFFu8 >> (n % 8);
+                }
+            }
+            ext.extend([fill, fill, fill]);
+            let longer = decode(e, &ext, ext.len() * 8);
+            if longer.res != o.res || longer.pos != o.pos {
+                add(
+                    format!("success-depends-on-the-end-of-input.{kind}"),
+                    format!("{} at position {:?}, whatever follows the message", truncate(&o.res, 100), o.pos),
+                    format!("{name} (declared length {}): {} at position {:?}", ext.len() * 8, truncate(&longer.res, 100), longer.pos),
+                );
+                break;
+            }
+        }
+    }
     let bytes = (n + 7) / 8;
     if o.largest_alloc > (256 << 20) || o.peak_extra > (64 << 20) + 4096 * bytes {
         add(format!("allocation-not-bounded-by-input.{kind}"), format!("largest request <= 256 MiB, peak <= 64 MiB + 4096 x {bytes} input bytes"), format!("largest request {} bytes, peak {} bytes", o.largest_alloc, o.peak_extra));
